@@ -36,7 +36,9 @@ OSR == Is("SR") /\ handed' = handed + Ev[l].got /\ chk' = FALSE /\ UNCHANGED <<s
 OEOS == Is("EOS") /\ eos' = eos + 1 /\ chk' = FALSE /\ UNCHANGED <<stream, out, nread, late, done, wl, regs, handed, err>>
 OERR == Is("ERR") /\ err' = Ev[l].cls /\ chk' = TRUE /\ UNCHANGED <<stream, out, nread, eos, late, done, wl, regs, handed>>
 OSTOP == Is("STOP") /\ chk' = TRUE /\ UNCHANGED <<stream, out, nread, eos, late, done, wl, regs, handed, err>>   \* consumer walked away
-OEND == Is("END") /\ done' = TRUE /\ chk' = TRUE /\ UNCHANGED <<stream, out, nread, eos, late, wl, regs, handed, err>>
+\* the end-of-stream request is only observable with a logging source (C.lazy); otherwise a finished generator implies it
+OEND == Is("END") /\ done' = TRUE /\ chk' = TRUE /\ eos' = (IF ~C.lazy /\ eos = 0 THEN 1 ELSE eos)
+        /\ UNCHANGED <<stream, out, nread, late, wl, regs, handed, err>>
 TNext == OW \/ OREG \/ OSR \/ OEOS \/ OERR \/ OEND \/ OSTOP
 TSpec == TInit /\ [][TNext]_tvars
 
